@@ -93,7 +93,7 @@ def _apply(m, o):
     x = m.regs[o['r']]
     sets = build_settings(m.lib, o['sets'])
     if o.get('single') and len(sets) == 1:
-        sets = sets[0]
+        sets = sets[0]          # the bare form instead of a one-element list
     a = {'S': m.texts.tids(o['S']), 'start': opt(o.get('start', 0)), 'end': opt(o.get('end')), 'top': b(o.get('top', True))}
     kw = {}
     args = [sets]
@@ -456,6 +456,11 @@ def _ufm(m, o):
 
 
 # ---- twins (C13) -----------------------------------------------------------------------------------
+@op('twinrender')
+def _twinrender(m, o):
+    return {'a': list(o['a']), 'b': list(o['b'])}, (lambda: None), 'scalar', {'obs': lambda v: {}}
+
+
 @op('twincheck')
 def _twin(m, o):
     return {'a': list(o['a']), 'b': list(o['b'])}, (lambda: None), 'scalar', {'obs': lambda v: {}}
@@ -818,7 +823,15 @@ def _scrub(m, o):
     a = {'leaves': tl, 'selfref': selfref, 'badtype': badtype}
     A = lib.AnsiString
 
+    poison = o.get('poison_first')
+
     def call():
+        if poison:
+            # the SAME list object is first passed with a bad element (the call must fail), then repaired in place and reused
+            shared = [poison if poison != 'neg' else -7]
+            out0, _ = guarded(lambda: A('x', [shared]))
+            shared[:] = list(arg)
+            return A('x', [shared])
         return A('x', arg[0]) if single else A('x', *arg)
 
     def obs(v):
